@@ -1144,7 +1144,7 @@ func (c *c06ctx) partB(r *hx.Rand, base string) {
 
 func runC06(cfg config) *hx.Report {
 	rep := hx.NewReport("C06")
-	rep.Rule = "Part A: real LoadSidecar on every strict prefix and single-bit flip of valid sidecars written by the real Flush (chunk counts 1..70, ids of 1..40 arbitrary bytes), on random and structured garbage and on CRC-valid crafted files (padding bits, chunk count, bitmap length, id length, trailing bytes, chunk size 0, negative size, version, magic); real LoadOrCreateSidecarWithFallback on all 7 identity mismatches x {primary, fallback, both}. Part B: one file fetched again by the real sender and receiver from {13 metadata states} x {8 data-file states} x {in-order, free-running 1-4 streams, data streams delayed, verification hash delayed}. Oracle: receiver success => tree identical; damaged last recorded chunk => sent again. Non-trivial = a sidecar/scenario marking some but not all chunks; distinct by (state, chunk size, bitmap)"
+	rep.Rule = "Part A: real LoadSidecar on every strict prefix and single-bit flip of valid sidecars written by the real Flush (chunk counts 1..70, ids of 1..40 arbitrary bytes), on random and structured garbage and on CRC-valid crafted files (padding bits, chunk count, bitmap length, id length, trailing bytes, chunk size 0, negative size, version, magic); real LoadOrCreateSidecarWithFallback on all 7 identity mismatches x {primary, fallback, both}. Part B: one file fetched again by the real sender and receiver from {13 metadata states} x {8 data-file states} x {in-order, free-running 1-4 streams, data streams delayed, verification hash delayed}. Oracle: receiver success => tree identical; damaged last recorded chunk => sent again. Plus directed histories: interrupted resumable fetch, data file removed or cut, interrupted fetch WITHOUT resume, resumed fetch. Non-trivial = a sidecar/scenario marking some but not all chunks; distinct by (state, chunk size, bitmap)"
 	base, _ := os.MkdirTemp("", "c06")
 	defer os.RemoveAll(base)
 	c := &c06ctx{rep: rep, dir: base, tier: cfg.tier,
@@ -1156,6 +1156,7 @@ func runC06(cfg config) *hx.Report {
 	c.partA(rng.Fork(1))
 	rep.Notes = append(rep.Notes, fmt.Sprintf("timing: transfers %.1fs, sidecar inputs %.1fs", t1.Sub(t0).Seconds(), time.Since(t1).Seconds()))
 	c.cf.Close()
+	runC06plain(cfg, rep)
 	return rep
 }
 
